@@ -213,6 +213,24 @@ class Checker(object):
         self.broken.append(("proof", "assumptions", "%d Print Assumptions answers for %d requests in %s" % (nblocks, len(printed), pf)))
       self.discharged += min(len(names), ok_blocks) if nblocks == len(printed) else 0
 
+  def coqchk(self):
+    """Thorough tier: re-check the compiled Prop libraries and everything they depend on with the
+    independent checker; record the axioms of the whole loaded context."""
+    for pf in self.mod.PROP_FILES:
+      lib = "AL.%s.%s" % (getattr(self.mod, "COQ_DIR", self.pid), pf)
+      cmd = "coqchk -silent -o -Q theories AL %s" % lib
+      self.cmds.append("cd coq && " + cmd)
+      rc, out, dt = sh("timeout 3000 " + cmd, 3100, cwd=COQ)
+      if rc != 0:
+        self.broken.append(("proof", "coqchk " + lib, out[-1200:]))
+        continue
+      summ = out[out.find("CONTEXT SUMMARY"):]
+      self.coqchk_summary = " ".join(summ.split())[:4000]
+      for head in ("relying on type-in-type", "relying on unsafe (co)fixpoints", "whose positivity is assumed"):
+        m = re.search(re.escape(head) + r":\s*(\S+)", summ)
+        if not m or m.group(1) != "<none>":
+          self.broken.append(("proof", "coqchk " + lib, "context summary: %s is not <none>" % head))
+
   # ---------------------------------------------------------------- cases
   def run_family(self, fam, cases):
     """Runs the implementation on every case, lets Coq evaluate corr/holds."""
@@ -371,6 +389,7 @@ class Checker(object):
         "exhaustive": bool(getattr(self.mod, "EXHAUSTIVE", {}).get(self.tier, False)),
         "broken_obligations": [self._b(b) for b in self.broken][:10],
         "known_findings_hit": list(self.known_hits.keys()),
+        "coqchk": getattr(self, "coqchk_summary", "not run (thorough tier only)"),
       },
       "assumptions": list(getattr(self.mod, "ASSUMPTIONS", [])),
       "wall_s": round(time.time() - self.t0, 2),
@@ -467,6 +486,8 @@ def main(argv=None):
     built = chk.make() if not a.no_proofs else True
     if built and not a.no_proofs:
       chk.props()
+      if tier == "thorough" and only is None and not os.environ.get("VERIF_NO_COQCHK"):
+        chk.coqchk()
     if True:
       chk.explore(tier, rng, only)
       if chk.broken and not chk.violations and tier == "quick" and only is None:
